@@ -291,7 +291,33 @@ func (g *G) genC08(p *Plan) {
 		}
 	case "lies":
 		size := g.n(0, 300)
-		for _, md := range []string{"", "ok", "wrong", "malformed", "shortlen", "empty"} {
+		if g.chance(0.03) && kind != "api" {
+			// sizes at which a server switches to another way of reading:
+			// beyond what it allocates up front, and full-size parts
+			size = 33554432 + g.n(1, 70000)
+			if kind == "part" {
+				size = g.pick2(5000000, 5000001, 5242880, 6000000)
+			}
+			spec := g.body(size)
+			for _, md := range []string{"wrong", "ok", g.pick("wrong-zero", "wrong-lastbyte", "wrong-ones"), ""} {
+				op := mk()
+				op.Body, op.MD5 = spec, md
+				if kind == "chunked" {
+					op.Chunks = []int{g.pick2(65536, 1048576, 8000000)}
+					if md == "" {
+						op.ChLie = g.pick("declen-", "declen+", "nofinal")
+					}
+				} else if md == "" {
+					op.LenLie = g.pick2(-1, 1)
+				}
+				ops = append(ops, op)
+			}
+			break
+		}
+		for _, md := range []string{"", "ok", "wrong", "malformed", "shortlen", "empty", "wrong-zero", "wrong-zero-padbits", "wrong-ones", "wrong-ofempty", "wrong-lastbyte"} {
+			if md == "wrong-ofempty" && size == 0 {
+				continue
+			}
 			for _, ll := range []int{0, -3, -1, 1, 5} {
 				if ll < 0 && size+ll < 0 {
 					continue
